@@ -59,3 +59,10 @@ CLAIMED['C06'] = ('6/C06', 'Bounded-exhaustive symbolic check: classes built ins
                   'update, two kinds of batch; symbolic values) the number of calls of each method equals 1 iff at least one resolved '
                   'dependency changed, 0 otherwise.',
                   'symbolic execution (CrossHair+z3) of the depends/watch installation and dispatch code against a call-count model')
+CLAIMED['C09'] = ('6/C09', 'Bounded symbolic check against plain-Python evaluation: e1 = op1(root, X) with op1 drawn from the full operator table of rx '
+                  '(forward and reflected binary operators, unary operators, .rx helpers, getitem, method call; table completeness checked '
+                  'against the class dict at run time), X a constant / Parameter / bind function / the root; a derived e2 = op2(e1, Y) built '
+                  'at a symbolic point of the history; histories of symbolic steps (set root, set parameter operand, read e1, derive/read e2) '
+                  'with and without a .rx.watch callback; every read equals the plain result or raises the same exception class, errors clear '
+                  'when the inputs are valid again.',
+                  'symbolic execution (CrossHair+z3) of rx evaluation/invalidation against a plain-Python evaluator of the same expression tree')
